@@ -45,10 +45,11 @@ def canon(x, depth=0):
         if x.dtype == object or x.dtype.kind in "US":
             return ["ndo", type(x).__name__, x.dtype.str, list(x.shape), [canon(v, depth + 1) for v in x.ravel().tolist()]]
         return ["nd", type(x).__name__, x.dtype.str, list(x.shape), np.ascontiguousarray(x).tobytes().hex()]
+    # axis *names* (`index.name`, `columns.name`) are not part of what the matrix reports (labels and cells are)
     if isinstance(x, pd.MultiIndex):
-        return ["MI", [canon(n) for n in x.names], [canon(t, depth + 1) for t in x.tolist()]]
+        return ["MI", [canon(t, depth + 1) for t in x.tolist()]]
     if isinstance(x, pd.Index):
-        return ["I", str(x.dtype), canon(x.name), canon(np.asarray(x.to_numpy(), dtype=object) if x.dtype == object or str(x.dtype) in ("str", "string") else x.to_numpy(), depth + 1)]
+        return ["I", str(x.dtype), canon(np.asarray(x.to_numpy(), dtype=object) if x.dtype == object or str(x.dtype) in ("str", "string") else x.to_numpy(), depth + 1)]
     if isinstance(x, pd.Series):
         v = x.to_numpy()
         return ["S", str(x.dtype), canon(x.name, depth + 1), canon(x.index, depth + 1), canon(v, depth + 1)]
@@ -153,7 +154,6 @@ ACCESSORS = [
     Acc("res.kernel_", "res", lambda s: s.res.kernel_, only="kernel"),
     Acc("res.kernel_where_", "res", lambda s: s.res.kernel_where_, only="kernel"),
     Acc("res.kernel_alternatives_", "res", lambda s: s.res.kernel_alternatives_, only="kernel"),
-    Acc("res.e_[key]", "res", lambda s, k: s.res.e_[s.ekeys[k]], param="ekey"),
 ]
 ACC = {a.name: a for a in ACCESSORS}
 
@@ -166,7 +166,6 @@ class Subject:
         d = dm.to_dict()  # not list(dm.criteria): iterating an _ACArray goes through its label lookup
         self.alts = d["alternatives"].tolist()
         self.crits = d["criteria"].tolist()
-        self.ekeys = sorted(res.e_) if res is not None else []
         self.rkind = None
         if res is not None:
             self.rkind = "kernel" if type(res).__name__ == "KernelResult" else "rank"
@@ -187,8 +186,6 @@ class Subject:
             elif a.param == "altpair":
                 pairs = [(i, j) for i in range(m) for j in range(m) if i != j]
                 out.extend((a.name, p) for p in (pairs if max_pairs is None else pairs[:max_pairs]))
-            elif a.param == "ekey":
-                out.extend((a.name, (k,)) for k in range(len(self.ekeys)))
         return out
 
     def read(self, inst):
@@ -207,7 +204,19 @@ class Subject:
             return ["raised", type(e).__name__]
 
     def snapshot(self, insts):
-        return [digest(self.report(i)) for i in insts]
+        """digest of what every accessor instance reports now (`to_dict()` is called once for its six entries)"""
+        out, td = [], None
+        for i in insts:
+            if i[0].startswith("dm.to_dict()["):
+                if td is None:
+                    try:
+                        td = {k: canon(v) for k, v in self.dm.to_dict().items()}
+                    except Exception as e:
+                        td = {"_raised": type(e).__name__}
+                out.append(digest(td.get(i[0][len("dm.to_dict()["):-1], ["raised", td.get("_raised")])))
+            else:
+                out.append(digest(self.report(i)))
+        return out
 
 
 # ----------------------------------------------------------------------------- mutation channels
@@ -315,10 +324,6 @@ def _raw_write(arr, pos):
 def _index_channels(get):
     """channels into a pandas Index reached through `get(obj)`"""
 
-    def name(o, pos):
-        ix = get(o)
-        ix.name = "HACK" if ix.name != "HACK" else "HACK2"
-
     def values(o, pos):
         _raw_write(get(o).values, pos)
 
@@ -331,7 +336,7 @@ def _index_channels(get):
     def asarray(o, pos):
         _raw_write(np.asarray(get(o)), pos)
 
-    return dict(name=name, values=values, array=array, to_numpy=to_numpy, asarray=asarray)
+    return dict(values=values, array=array, to_numpy=to_numpy, asarray=asarray)
 
 
 def _series_channels():
@@ -508,45 +513,50 @@ def attempt(x, channel, pos):
 # ----------------------------------------------------------------------------- classification
 
 
-def classify(make_subject, name, probes=3):
+CORE = [("dm.to_dict()[matrix]", ()), ("dm.to_dict()[objectives]", ()), ("dm.to_dict()[weights]", ()),
+        ("dm.to_dict()[dtypes]", ()), ("dm.to_dict()[alternatives]", ()), ("dm.to_dict()[criteria]", ()),
+        ("res.values", ()), ("res.alternatives", ()), ("res.to_series()", ())]
+
+
+def classify(make_subject, name, probes=2):
     """hand-out kind of one generic accessor, decided on live objects.
 
     memoShared  : two reads give the same (mutable) object, or a write into a returned object through some
-                  channel shows up in a later read (the channel is named)
+                  channel shows up afterwards in what the matrix / result reports (the six parts of `to_dict()`,
+                  the result's values / alternatives / series) or in a re-read of the same accessor
     memoThenCopy: the answer is cached by the class (the second read is served from a cache: detected by
-                  the accessor's lru_cache statistics) but what is handed out is a fresh copy
+                  the lru_cache hit counters of the object) but what is handed out is a fresh copy
     freshCopy   : otherwise
     `guarded`   : plain `obj[i] = v` on the returned object is refused"""
-    acc = ACC[name]
     s0 = make_subject()
     insts = [i for i in s0.instances() if i[0] == name]
     if not insts:
         return None
-    leaks, guarded, shared_identity = [], None, False
-    every = s0.instances()
+    leaks, guarded, shared_identity = [], False, False
     for inst in insts[:probes]:
+        watch = [c for c in CORE if s0.res is not None or not c[0].startswith("res.")] + [inst]
         s = make_subject()
-        a, b = s.read(inst), s.read(inst)
+        try:
+            a, b = s.read(inst), s.read(inst)
+        except Exception:
+            continue  # the accessor raises on this subject: nothing is handed out
         if a is b and not immutable(a):
             shared_identity = True
-        chans = sorted(channels(a))
-        if isinstance(a, np.ndarray) and guarded is None:
-            t = make_subject()
-            o = t.read(inst)
-            guarded = attempt(o, "setitem", 0) not in (None, "skip")
-        for ch in chans:
-            for pos in (0, 1):
+        if isinstance(a, np.ndarray):
+            guarded = guarded or attempt(a, "setitem", 0) not in (None, "skip")
+        t, before = None, None
+        for ch in sorted(channels(a)):
+            if t is None:  # a subject is reused until something leaked into it
                 t = make_subject()
-                before = t.snapshot(every)
-                o = t.read(inst)
-                r = attempt(o, ch, pos)
-                if r is not None:
-                    continue
-                after = t.snapshot(every)
-                if before != after:
-                    changed = [f"{n}{list(a_)}" if a_ else n for (n, a_), x, y in zip(every, before, after) if x != y]
-                    leaks.append({"channel": ch, "pos": pos, "inst": list(inst[1]), "changed": changed[:6]})
-                    break
+                before = t.snapshot(watch)
+            o = t.read(inst)
+            if attempt(o, ch, 0) is not None:
+                continue
+            after = t.snapshot(watch)
+            if before != after:
+                changed = [f"{n}{list(a_)}" if a_ else n for (n, a_), x, y in zip(watch, before, after) if x != y]
+                leaks.append({"channel": ch, "inst": list(inst[1]), "changed": changed[:6]})
+                t = None
     cached = _is_cached(make_subject(), insts[0])
     kind = "memoShared" if (shared_identity or leaks) else ("memoThenCopy" if cached else "freshCopy")
     return {"name": name, "kind": kind, "guarded": bool(guarded), "identity": shared_identity, "leaks": leaks, "cached": cached}
